@@ -1,6 +1,7 @@
 package props
 
 import (
+	"bytes"
 	"crypto/x509"
 	"encoding/base64"
 	"encoding/pem"
@@ -36,6 +37,9 @@ type c01Case struct {
 	Term string `json:"term"` // nl | crlf | eof | hang | more
 	// Alive: the fake plugin keeps running after the line (otherwise it exits)
 	Alive bool `json:"alive"`
+	// Launch: "" = in-process scripted runner; "cmd" = a real process started by the library's own
+	// command runner (exec.Cmd), so its address translation is on the path as well
+	Launch string `json:"launch,omitempty"`
 }
 
 func (c c01Cfg) offered() map[int]bool {
@@ -100,7 +104,8 @@ var (
 	c01BadNet  = []string{"", "udp", "TCP", "tcp4", "tcp6", "unixgram", "ip", "garbage", " tcp", "Unix"}
 	c01BadTCP  = []string{"", "127.0.0.1", "127.0.0.1:99999", "127.0.0.1:-1", "nosuchhost.invalid:80", "localhost:1234", "127.0.0.1:nosuchservice",
 		"[::1", "1.2.3.4.5:80", "/tmp/plugin123", "127.0.0.1:12 34", "::1:80", strings.Repeat("a", 300) + ":80"}
-	c01OddUnix  = []string{"", "relative/path", "@abstract", "/tmp/with space", strings.Repeat("/x", 200), "127.0.0.1:1234"}
+	c01OddUnix  = []string{"", "relative/path", "@abstract", "/tmp/with space", strings.Repeat("/x", 200), "127.0.0.1:1234",
+		"/tmp//plugin1", "/tmp/./plugin2", "/tmp/x/../plugin3", "/tmp/plugin4/", "./plugin5", "//tmp/plugin6"}
 	c01BadProto = []string{"", "GRPC", "netrpc ", "foo", "http", "grpc\x00"}
 	c01BadMux   = []string{"false", "0", "f", "F", "FALSE", "False", "", "yes", "no", "2", "truee", " true"}
 	c01OkMux    = []string{"true", "1", "t", "T", "TRUE", "True"}
@@ -267,6 +272,15 @@ func c01Gen(t *rapid.T) any {
 	}
 	if c.Term == "hang" {
 		c.Alive = true
+	}
+	// a real process behind the library's own command runner: always for a share of the cases, and
+	// more often when the line carries a unix path that is not in its shortest spelling
+	p := 6.0
+	if bytes.Contains(c.Line, []byte("unix|")) && (bytes.Contains(c.Line, []byte("//")) || bytes.Contains(c.Line, []byte("/.")) || bytes.Contains(c.Line, []byte("|./")) || bytes.Contains(c.Line, []byte("/|"))) {
+		p = 50
+	}
+	if pct(t, "cmdlaunch", p) {
+		c.Launch = "cmd"
 	}
 	return c
 }
@@ -488,13 +502,25 @@ func c01Run(ci any) (out Outcome) {
 	if c.Term == "hang" {
 		startTimeout = 300 * time.Millisecond
 	}
-	sr := newScriptRunner(c01Script(c))
-	cc := c.Cfg.clientConfig(func(hclog.Logger, *exec.Cmd, string) (runner.Runner, error) { return sr, nil }, startTimeout)
+	var sr *scriptRunner
+	var cc *plugin.ClientConfig
+	if c.Launch == "cmd" {
+		cc = c.Cfg.clientConfig(nil, startTimeout)
+		cc.Cmd = fakeCmd(c01Script(c))
+		out.label("launch:cmd")
+	} else {
+		sr = newScriptRunner(c01Script(c))
+		cc = c.Cfg.clientConfig(func(hclog.Logger, *exec.Cmd, string) (runner.Runner, error) { return sr, nil }, startTimeout)
+	}
 	cl := plugin.NewClient(cc)
 	defer func() {
 		// end the scripted plugin first: Kill then has nothing to negotiate with
 		// (Kill's own behaviour is the subject of C04/C05, not of this check)
-		sr.Kill(nil)
+		if sr != nil {
+			sr.Kill(nil)
+		} else if cc.Cmd.Process != nil {
+			cc.Cmd.Process.Kill()
+		}
 		if _, ok := killBounded(cl, 15*time.Second); !ok {
 			out.Slow = "Kill after Start did not return within 15 s"
 		}
@@ -655,7 +681,7 @@ var propC01 = register(&Prop{
 	Run: c01Run,
 	Rule: "rapid draws a client configuration (legacy/versioned/both version sets, allowed-protocol lists incl. unknown names and empty, TLS none/static/AutoMTLS, mux on/off) " +
 		"and a first stdout line from a per-field class grammar (core/app/network/address/protocol/certificate/mux field each canonical or from a hostile class list; 0-8 fields; blanks), " +
-		"then optional byte mutations, or fully random bytes; terminator nl/crlf/eof/more-lines/never-terminated; delivered through an in-process scripted runner. " +
+		"then optional byte mutations, or fully random bytes; terminator nl/crlf/eof/more-lines/never-terminated; delivered through an in-process scripted runner or (6% of the cases, 50% for unix paths not in their shortest spelling) by a real process behind the library's own command runner. " +
 		"Oracle: independent reference parser: must-fail conditions of the statement, canonical lines must succeed, on success reported network/address/protocol/version equal the line, " +
 		"never (nil,nil), never a panic, bounded return. Non-trivial: >=4 fields with acceptable core and app version (address/protocol/cert/mux logic reached) or Start succeeded.",
 	Assumptions: []string{
